@@ -141,8 +141,14 @@ pub fn c09_samples(t: Tier) -> usize {
     t.pick(6, 200)
 }
 const C09_PAR: usize = 10;
+pub fn isolated_c09(t: Tier, i: usize) -> bool {
+    i >= 1 + c09_sessions(t) + c09_samples(t) * C09_CHUNKS && (i % 2 == 0 || i + 1 == runs_c09(t))
+}
+fn c09_soak_n(t: Tier) -> usize {
+    t.pick(1100, 70_000)
+}
 pub fn runs_c09(t: Tier) -> usize {
-    1 + c09_sessions(t) + c09_samples(t) * C09_CHUNKS + C09_PAR
+    1 + c09_sessions(t) + c09_samples(t) * C09_CHUNKS + C09_PAR + 1
 }
 
 /// Two signers (different master keys) on two caller threads, then two verifiers.
@@ -160,6 +166,13 @@ fn c09_concurrent(p: &mut Prng, w: &mut World) {
         json!({"op":"sm9.sign","impl":"lib","ds":s("uk"),"ppubs":s("pub"),"id":s("id"),"msg":s("msg"),"sig":s("sig"),"rng":rng_json(&uniform_script(p, 1))})
     };
     let (a, b) = (sop("pa", p), sop("pb", p));
+    if p.chance(1, 3) {
+        // one signer and its verifier have been at work before (a hit beside a miss)
+        w.exec(a.clone());
+        if w.slots.contains_key("pa.sig") {
+            w.exec(sm9_verify_op("pa", true));
+        }
+    }
     w.exec(par(a, b, &par_order(p)));
     if w.slots.contains_key("pa.sig") && w.slots.contains_key("pb.sig") {
         w.exec(par(sm9_verify_op("pa", true), sm9_verify_op("pb", true), &par_order(p)));
@@ -196,6 +209,14 @@ pub fn run_c09(p: &mut Prng, t: Tier, i: usize, sink: &mut Sink) {
             w.exec(set("s.msg", &msg_of_len(p, mlen)));
             sm9_sign_ops(&mut w, "s", pick_impl(p, 2, 3), rng_json(&classy_script(p, &order())));
             if w.slots.contains_key("s.sig") {
+                // history "damaged first": the verifier's first contact with this master key and
+                // identity is a damaged signature (S off the curve, h changed, ...)
+                if p.chance(1, 4) {
+                    w.bump("history.damaged-first");
+                    for op in damaged_first(p, &sm9_verify_op("s", true), "sig", 97) {
+                        w.exec(op);
+                    }
+                }
                 w.exec(sm9_verify_op("s", true));
             }
             // history: a second identity under the same master key, then the first one again
@@ -218,6 +239,12 @@ pub fn run_c09(p: &mut Prng, t: Tier, i: usize, sink: &mut Sink) {
         if i == 1 {
             w.samples.push(json!({"schedule": w.history.clone()}));
         }
+        sink.done(w);
+        return;
+    }
+    if i + 1 == runs_c09(t) {
+        // long history: more distinct identities than a 2^10 (thorough: 2^16) entry table holds
+        w.exec(json!({"op":"sm9.soak","kind":"verify","n":c09_soak_n(t),"seed":p.next_u64()}));
         sink.done(w);
         return;
     }
@@ -280,6 +307,18 @@ pub fn run_c09(p: &mut Prng, t: Tier, i: usize, sink: &mut Sink) {
             branches.push(vec![fault("a.sig", "splice", json!({"pos":32,"hex":hex::encode(alt)})), v()]);
         }
         branches.push(vec![fault("a.sig", "splice", json!({"pos":33,"hex":hex::encode([0u8; 64])})), v()]);
+    }
+    // the same (h, S) in other framings: GM/T 0044 DER SEQUENCE{OCTET STRING h, BIT STRING S}, text
+    // encodings, other wrappings
+    {
+        let mut forms = reframings(&sig, &[(0, 32), (32, sig.len())]);
+        let body = [crate::refmodel::der::tlv(0x04, &sig[..32]), crate::refmodel::der::tlv(0x03, &[&[0u8][..], &sig[32..]].concat())].concat();
+        forms.push(("gmt0044-der", crate::refmodel::der::tlv(0x30, &body)));
+        for (name, bytes) in forms {
+            w.bump("fault.reframed");
+            w.bump(&format!("probe.reframed.{name}"));
+            branches.push(vec![set("a.sig", &bytes), v()]);
+        }
     }
     // message / identity / master public key changed; misdelivery
     if mlen > 0 {
@@ -364,8 +403,11 @@ pub fn c10_samples(t: Tier) -> usize {
     t.pick(8, 300)
 }
 const C10_PAR: usize = 12;
+pub fn isolated_c10(t: Tier, i: usize) -> bool {
+    i >= 2 + c10_sessions(t) + c10_samples(t) * C10_CHUNKS && (i % 2 == 0 || i + 1 == runs_c10(t))
+}
 pub fn runs_c10(t: Tier) -> usize {
-    2 + c10_sessions(t) + c10_samples(t) * C10_CHUNKS + C10_PAR
+    2 + c10_sessions(t) + c10_samples(t) * C10_CHUNKS + C10_PAR + 1
 }
 
 /// Two encryptions by two caller threads (different master keys, or one master key and two
@@ -393,6 +435,13 @@ fn c10_concurrent(p: &mut Prng, w: &mut World) {
         w.exec(set(&format!("{pfx}.msg"), &msg_of_len(p, len)));
     }
     let (ea, eb) = (sm9_enc_op("pa", "lib", rng_json(&uniform_script(p, 1))), sm9_enc_op("pb", "lib", rng_json(&uniform_script(p, 1))));
+    if p.chance(1, 3) {
+        // one recipient has been encrypted to (and has decrypted) before (a hit beside a miss)
+        w.exec(ea.clone());
+        if w.slots.contains_key("pa.ct") {
+            w.exec(sm9_dec_op("pa", true));
+        }
+    }
     w.exec(par(ea, eb, &par_order(p)));
     for pfx in ["pa", "pb"] {
         if w.slots.contains_key(&format!("{pfx}.ct")) {
@@ -486,6 +535,12 @@ pub fn run_c10(p: &mut Prng, t: Tier, i: usize, sink: &mut Sink) {
             }
             w.exec(sm9_enc_op("s", pick_impl(p, 2, 3), rng_json(&classy_script(p, &order()))));
             if w.slots.contains_key("s.ct") {
+                if p.chance(1, 4) {
+                    w.bump("history.damaged-first");
+                    for op in damaged_first(p, &sm9_dec_op("s", true), "ct", 98) {
+                        w.exec(op);
+                    }
+                }
                 w.exec(sm9_dec_op("s", true));
                 round_trip_check(&mut w, "s", i as u64);
             }
@@ -513,6 +568,12 @@ pub fn run_c10(p: &mut Prng, t: Tier, i: usize, sink: &mut Sink) {
         if i == 2 {
             w.samples.push(json!({"schedule": w.history.clone()}));
         }
+        sink.done(w);
+        return;
+    }
+    if i + 1 == runs_c10(t) {
+        // long history: more distinct recipients than a 2^10 (thorough: 2^16) entry table holds
+        w.exec(json!({"op":"sm9.soak","kind":"encrypt","n":t.pick(1100, 70_000),"seed":p.next_u64()}));
         sink.done(w);
         return;
     }
@@ -577,6 +638,19 @@ pub fn run_c10(p: &mut Prng, t: Tier, i: usize, sink: &mut Sink) {
         alt.extend_from_slice(&ct[65..97]);
         w.bump("fault.rearranged-framing");
         branches.push(vec![set("a.ct", &alt), d()]);
+    }
+    // the same ciphertext in other framings: GM/T 0044 DER SEQUENCE{INTEGER EnType, BIT STRING C1,
+    // OCTET STRING C3, OCTET STRING C2}, text encodings, other wrappings
+    {
+        use crate::refmodel::der::tlv;
+        let mut forms = reframings(&ct, &[(0, 65), (65, 97), (97, ct.len())]);
+        let body = [tlv(0x02, &[0u8]), tlv(0x03, &[&[0u8][..], &ct[..65]].concat()), tlv(0x04, &ct[65..97]), tlv(0x04, &ct[97..])].concat();
+        forms.push(("gmt0044-der", tlv(0x30, &body)));
+        for (name, bytes) in forms {
+            w.bump("fault.reframed");
+            w.bump(&format!("probe.reframed.{name}"));
+            branches.push(vec![set("a.ct", &bytes), d()]);
+        }
     }
     // different identity at the receiver
     branches.push(vec![fault("a.id", "extend", json!({"hex":"00"})), d()]);
@@ -1077,6 +1151,9 @@ fn c17_concurrent(p: &mut Prng, w: &mut World) {
 }
 
 const C17_PAR: usize = 10;
+pub fn isolated_c17(t: Tier, i: usize) -> bool {
+    i >= runs_c17(t) - C17_PAR && i % 2 == 0
+}
 
 pub fn run_c17(p: &mut Prng, t: Tier, i: usize, sink: &mut Sink) {
     let mut w = World::new();
